@@ -8,8 +8,29 @@ MEM_GROUPS := a b c d e f
 MEM14_OBJS := $(B)/mem14/memsim_main.o $(foreach g,$(MEM_GROUPS),$(B)/mem14/group_$(g).o)
 MEM17_OBJS := $(B)/mem17/memsim_main.o $(foreach g,$(MEM_GROUPS),$(B)/mem17/group_$(g).o)
 
-.PHONY: build mem clean
-build: mem
+IO_FORMATS ?= bmp pnm targa
+IO_SRCS := iosim_main wraps $(foreach f,$(IO_FORMATS),fmt_$(f))
+IOA_OBJS := $(foreach s,$(IO_SRCS),$(B)/ioA/$(s).o)
+IOB_OBJS := $(foreach s,$(IO_SRCS),$(B)/ioB/$(s).o)
+IO_LIBS := -Wl,--wrap=fopen -Wl,--wrap=TIFFOpen -lpng -ljpeg -ltiffxx -ltiff -lz
+IO_DEFS := -DBOOST_GIL_IO_ENABLE_GRAY_ALPHA
+
+.PHONY: build mem io clean
+build: mem io
+io: $(B)/bin/iosimA $(B)/bin/iosimB
+
+$(B)/ioA/%.o: sim/io/%.cpp Makefile
+	@mkdir -p $(@D)
+	@$(CXX) -std=c++14 $(COMMON) $(IO_DEFS) -DSIM_POISON_BYTE=0 -ftrivial-auto-var-init=zero -c $< -o $@ 2> $@.log || { cat $@.log | head -60; echo "BUILD-FAIL $@"; exit 1; }
+$(B)/ioB/%.o: sim/io/%.cpp Makefile
+	@mkdir -p $(@D)
+	@$(CXX) -std=c++14 $(COMMON) $(IO_DEFS) -DSIM_POISON_BYTE=190 -ftrivial-auto-var-init=pattern -c $< -o $@ 2> $@.log || { cat $@.log | head -60; echo "BUILD-FAIL $@"; exit 1; }
+$(B)/bin/iosimA: $(IOA_OBJS)
+	@mkdir -p $(@D)
+	@$(CXX) $(SAN) $^ -o $@ $(IO_LIBS)
+$(B)/bin/iosimB: $(IOB_OBJS)
+	@mkdir -p $(@D)
+	@$(CXX) $(SAN) $^ -o $@ $(IO_LIBS)
 mem: $(B)/bin/memsim14 $(B)/bin/memsim17
 
 $(B)/mem14/%.o: sim/mem/%.cpp Makefile
